@@ -24,9 +24,17 @@ def jobs(tier):
     for pre, spec, k in (('sat', S, 6), ('lra', L, 1), ('dl', D, 5), ('ov', O, 4)):
         ms = [m for m in members(spec.jobs(tier)) if 'pop' in m.desc or 'history' in m.desc]
         if tier == 'quick':
-            # families whose whole point is an undo (backjump to root with a non-empty propagation queue, restored predecessors) are never thinned out
-            keep = set(L.fmt(*x) for x in L.family_implied_conflict()) if pre == 'lra' else set(th + ': ' + D.fmt(*x) for x in D.family_undo() for th in ('idl', 'rdl')) if pre == 'dl' else set()
-            step = 3 if pre == 'dl' else 2 if pre in ('sat', 'lra') else 1
+            # the curated scenarios and the families whose whole point is an undo (both bounds in one level, backjump to root with a non-empty
+            # propagation queue, restored predecessors, chains retracted and re-asserted) are never thinned out; the rest is sampled by position
+            if pre == 'lra':
+                keep = set(L.fmt(*x) for x in list(L.CURATED) + L.family_implied_conflict() + L.family_unate())
+            elif pre == 'dl':
+                keep = set(th + ': ' + D.fmt(*x) for x in list(D.CURATED) + D.family_undo() + D.family_chain_orders() for th in ('idl', 'rdl'))
+            elif pre == 'sat':
+                keep = set(m.desc for m in ms[:len(S.CURATED)])
+            else:
+                keep = set()
+            step = 3 if pre in ('dl', 'lra') else 2 if pre == 'sat' else 1
             ms = [m for i, m in enumerate(ms) if i % step == 0 or m.desc in keep]
         for m in ms:
             m.name = pre + '/' + m.name
